@@ -133,6 +133,14 @@ class _EmptyAnnotation(UpgradedAnnotation):
 EmptyAnnotation: UpgradedAnnotation = _EmptyAnnotation()
 
 
+class _ConflictingAnnotation(_EmptyAnnotation):
+    """No annotation, because the parameters that were combined disagreed"""
+
+    def __repr__(self):
+        return "ConflictingAnnotation"
+ConflictingAnnotation: UpgradedAnnotation = _ConflictingAnnotation()
+
+
 class UpgradedSignature(_util.funcsigs.Signature):
     """A `~inspect.Signature` augmented with parameter sources and upgraded annotations,
     as returned by `sigtools.signature` or `sigtools.signatures.signature`
@@ -708,10 +716,18 @@ class _Merger(object):
                 default = None
         annotation = left.empty
         upgraded_annotation = EmptyAnnotation
-        if left.annotation != left.empty and right.annotation != right.empty:
+        if (
+            left.upgraded_annotation is ConflictingAnnotation
+            or right.upgraded_annotation is ConflictingAnnotation
+        ):
+            # an earlier step of the fold already found a disagreement
+            upgraded_annotation = ConflictingAnnotation
+        elif left.annotation != left.empty and right.annotation != right.empty:
             if self._same_annotation(left, right):
                 annotation = left.annotation
                 upgraded_annotation = left.upgraded_annotation
+            else:
+                upgraded_annotation = ConflictingAnnotation
         elif left.annotation != left.empty:
             annotation = left.annotation
             upgraded_annotation = left.upgraded_annotation
